@@ -476,7 +476,7 @@ theorem phread_poll {g : Cfg} {n : Nat} (ok : POK g n) {c : Conn} {r : AReq} {h 
     PRes g n 4 c := by
   have hK := ok.kok
   have hstep := C07.handler_step c r h hph
-  obtain ⟨f, hf⟩ : ∃ f, handlerFuel c.env r = f + 2 := ⟨handlerFuel c.env r - 2, by have := handlerFuel_ge c.env r; omega⟩
+  obtain ⟨f, hf⟩ : ∃ f, (handlerFuel c.env r + scriptOf c) = f + 2 := ⟨(handlerFuel c.env r + scriptOf c) - 2, by have := handlerFuel_ge c.env r; omega⟩
   obtain ⟨ops, sub, ws, pr⟩ := h
   simp only at hops hws hpr
   subst hops hws hpr
